@@ -9,6 +9,7 @@ import vlib
 from props import c02_ext as X
 from props import c02_r3 as R
 from props import c02_r4 as R4
+from props import c02_r6 as R6
 
 F = fractions.Fraction
 PID = 'C02'
@@ -18,7 +19,7 @@ MODEL_TARGETS = ['C02/Corr.vo']
 PROPS_FILE = 'C02/Props.v'
 PROPS_MODULE = 'QV.C02.Props'
 CORR_IMPORTS = ['QV.C02.Spec', 'QV.C02.Model', 'QV.C02.Stack', 'QV.C02.Merge', 'QV.C02.Rewrite', 'QV.C02.Flatten',
-                'QV.C02.Params', 'QV.C02.Vol', 'QV.C02.Corr']
+                'QV.C02.Params', 'QV.C02.Vol', 'QV.C02.Render', 'QV.C02.Corr']
 CHECK_CORR = 'check_corr'
 CHECK_SPEC = 'check_spec'
 SHARD = 120
@@ -650,6 +651,9 @@ def gen_cases(rng, tier, ctx):
     for _ in range(40 if tier == 'quick' else 250):
         cases.append(R4.gen_loop_edit(rng, g if rng.random() < 0.5 else gc))
     cases.extend(R4.enum_loop_empty())
+    # round 6: plotting.render(...)[2] with the default and explicit time slices, judged in Coq
+    cases.extend(R6.gen_render(rng, g if rng.random() < 0.7 else gc, C) for _ in range(200 if tier == 'quick' else 900))
+    cases.extend(R6.enum_render(C))
     enum4 = R4.enum_coincide(C) + R4.enum_context(C) + R4.enum_loop_coincide() + R4.enum_awrap(C)
     if tier != 'thorough':
         rng.shuffle(enum4)
@@ -808,6 +812,8 @@ def run_impl(case):
         with warnings.catch_warnings():
             warnings.simplefilter('ignore')
             with vlib.time_limit(20):
+                if case['kind'] == 'render':
+                    return R6.run_render(case, sys.modules[__name__])
                 if case['kind'] == 'trace':
                     return X.run_trace(case, build_pt, _num)
                 if case['kind'] == 'merge':
@@ -1008,6 +1014,8 @@ def to_coq(case, obs):
     if 'crash' in obs or 'hang' in obs:
         return 'CCrash'
     kind = case['kind']
+    if kind == 'render':
+        return R6.to_coq(case, obs, sys.modules[__name__])
     if kind == 'merge':
         pm = lambda d: vlib.glist(lambda kv: '(%s, %s)' % (vlib.gN(par_id(kv[0])), e_coq(kv[1])), sorted(d.items()))
         cs = vlib.glist(lambda c: '(%s, %s, %s)' % (vlib.gbool(c[0]), e_coq(c[1]), e_coq(c[2])), case['cs1'])
@@ -1099,6 +1107,8 @@ def nontrivial(case, obs):
         return obs.get('after') is not None and len(obs['ws0']) >= 2
     if kind == 'vol':
         return len(obs.get('ws2', [])) >= 2 and obs.get('ws1') != obs.get('ws2')
+    if kind == 'render':
+        return 'r' in obs and obs['r'][0] == 'ok' and len(obs['ws']) >= 2
     if 'ws' not in obs or len(obs['ws']) < 2:
         return False
     if case['kind'] == 'loop':
@@ -1109,6 +1119,8 @@ def nontrivial(case, obs):
 
 def histogram_keys(case, obs):
     kind = case['kind']
+    if kind == 'render':
+        return R6.histogram_keys(case, obs)
     if kind in ('merge', 'rw', 'flat'):
         keys = [kind]
         if kind == 'merge':
@@ -1206,6 +1218,8 @@ def classify(case, obs):
 
 def py_spec(case, obs):
     """the observation points of the property report the same windows (the first one is judged in Coq)"""
+    if case['kind'] == 'render':
+        return R6.py_spec(case, obs)
     if obs.get('ws_again') is not None and obs['ws_again'] != obs['ws']:
         return 'get_measurement_windows() called twice on the unchanged program reports different windows'
     if 'wsd' in obs and obs['wsd'] != obs.get('wsd_ref', obs.get('ws')):
@@ -1327,6 +1341,9 @@ def search_failing(ctx, broken):
     gc = R4.make_gc(C, rng)
     for _ in range(300):
         cases.append(R4.gen_coincide(rng, g, C, gc))
+    cases += R6.enum_render(C)
+    for _ in range(200):
+        cases.append(R6.gen_render(rng, g, C))
     for _ in range(1500):
         cases.append(g.prog_case(rng.choice([1, 2, 3])))
     for _ in range(500):
